@@ -363,9 +363,69 @@ def region_ir(rng, ks):
     return {"name": None, "type": "static", "doc": doc, "params": params, "returns": ret}, ["region", "params:%d" % len(params)]
 
 
+def sq_text(rng, depth=1, terminal=False):
+    """a one-line plain text wrapped in `depth` pairs of single quote marks (the apostrophe is a character of plain text for
+    the classifiers; the double quote mark is not): a quoted word or phrase, or a text that merely begins and ends with
+    quoted words"""
+    q = "'" * depth
+    if rng.random() < 0.65:
+        body = " ".join(G.word(rng) for _ in range(rng.randint(1, 4))) + ("." if terminal else "")
+        return q + body + q
+    return "%s%s%s %s %s%s%s" % (q, G.word(rng), q, rng.choice(["and", "or", "then", "is not"]), q, G.word(rng), q)
+
+
+def new_shape_point(rng, chains):
+    """(ir, chain, tags): a description built inside the region of its chain and then given one of the shapes proofs found
+    inside that region: a float default -0.0 (mostly under the scalar type float, mostly on a chain through the class kind),
+    a summary and / or the prose of a parameter wrapped in 1..3 pairs of single quote marks (mostly on a chain through the
+    argparse kind; for prose mostly on a chain without docstring kinds, where prose need not end in a full stop)"""
+    shape = rng.choice(["negzero", "negzero", "quoted-summary", "quoted-summary", "quoted-prose", "quoted-prose", "both"])
+    want = {"negzero": ["class"], "quoted-summary": ["argparse"], "quoted-prose": ["argparse"], "both": ["class", "argparse"]}[shape]
+    pool = chains
+    if rng.random() < 0.8:
+        pool = [c for c in chains if all(k in c for k in want)]
+        if shape == "quoted-prose" and rng.random() < 0.6:
+            pool = [c for c in pool if not set(c) & set(DOC_KINDS)]
+    ks = rng.choice(pool or chains)
+    ir, _ = region_ir(rng, ks)
+    names = list(ir["params"])
+    if not names:
+        names = ["x"]
+        ir["params"]["x"] = {"typ": "int", "doc": "the x.", "default": 1}
+    depth = rng.choice([1, 1, 1, 2, 3])
+    if shape in ("negzero", "both"):
+        p = ir["params"][rng.choice(names)]
+        p["typ"] = "float" if rng.random() < 0.8 else "Optional[float]"
+        p["default"] = -0.0
+        p.setdefault("doc", "the value.")
+    if shape in ("quoted-summary", "both"):
+        ir["doc"] = sq_text(rng, depth, terminal=rng.random() < 0.3)
+    if shape == "quoted-prose":
+        if set(ks) & set(DOC_KINDS) and not set(ks) & {"class", "function", "method"}:
+            # (next to docstring kinds prose before a default sentence must end in a full stop: an Optional parameter without
+            # default, placed first, carries any prose there)
+            name = G.ident(rng)
+            while name in ir["params"] or len(name) > 16:
+                name = G.ident(rng)
+            items = [(name, {"typ": "Optional[%s]" % rng.choice(SCALARS), "doc": sq_text(rng, depth)})] + list(ir["params"].items())
+            ir["params"] = OrderedDict(items)
+        else:
+            ir["params"][rng.choice(names)]["doc"] = sq_text(rng, depth)
+    return ir, ks, ["region", "new-shape", shape]
+
+
+def _side_rng(rng):
+    """a generator seeded from `rng` that leaves the stream of `rng` where it was"""
+    state = rng.getstate()
+    side = random.Random(rng.random())
+    rng.setstate(state)
+    return side
+
+
 def gen_points(rng, tier):
     """[(ir, chain, tags)]"""
     pts = []
+    side = _side_rng(rng)
     if tier == "quick":
         n_ir, per = 330, 14
         all_chains = SINGLES + PAIRS + TRIPLES
@@ -406,6 +466,8 @@ def gen_points(rng, tier):
             for _ in range(40):
                 ir, tags = region_ir(rng, ks)
                 pts.append((ir, ks, tags))
+    # the shapes of new_shape_point: about one point in twenty
+    pts += [new_shape_point(side, SINGLES + PAIRS + TRIPLES) for _ in range(240 if tier == "quick" else 4000)]
     return pts
 
 
@@ -531,7 +593,7 @@ def _work_seq(chunk):
         did = run_poison(poison)
         ok, what, mids, strict_ok = evaluate(ir, ks)
         after = json.dumps(mids[-1], sort_keys=True, default=str) if len(mids) == len(ks) else "raised: " + what
-        res.append((did, alone, after, ok, what, strict_ok))
+        res.append((did, alone, after, ok, what, strict_ok, mids[-1] if len(mids) == len(ks) and mids else None))
     return res
 
 
@@ -540,8 +602,66 @@ def _work(chunk):
     return [evaluate(ir, ks) for ir, ks in chunk]
 
 
-def _class_request(ks, ir):
-    return dumps([Sym("c05_class"), [Sym(k) for k in ks], irwire.enc_ir(_od(ir))])
+def _class_request(ks, ir, fn="c05_class_r"):
+    return dumps([Sym(fn), [Sym(k) for k in ks], irwire.enc_ir(_od(ir))])
+
+
+# ------------------------------------------------------------------ the classes of model/C05Spec2.v
+# (the refined classifier c05_class_of_r = c05_class_of where that names a class, otherwise the two classes below)
+NEW_CLASSES = ("negative-zero-default", "text-quoted")
+
+
+def _new_class_info(pairs):
+    """[(ks, ir)] -> [(new classes that apply on this chain, parameters with a -0.0 default under a scalar type (chains through
+    the class kind), whether the summary is quoted, parameters with quoted prose (chains through the argparse kind))], from
+    C05Spec2 (c05_new_classes)"""
+    out = []
+    for r in run_model([_class_request(ks, ir, "c05_new_classes") for ks, ir in pairs]):
+        e = loads(r)
+        out.append(([unhx(x) for x in e[0]], [unhx(x) for x in e[1]], e[2] == "true", [unhx(x) for x in e[3]]))
+    return out
+
+
+def described_by_new_classes(ir, out, negz, qsum, qhelps):
+    """a new class stands for the failure it describes only: the description at the end of the chain must be - under the
+    STRICT relation, the point being inside the first classifier's region otherwise - the input with (a) the -0.0 defaults of
+    the named parameters replaced by 0.0 and (b) one outer pair of quote marks removed from the summary / from the prose of
+    the named parameters (the kinds of a chain are distinct: the class and the argparse kind are passed once each).  Every
+    other difference (and an exception anywhere) is not what these classes describe"""
+    if out is None:
+        return False
+    exp = copy.deepcopy(ir)
+    for n in negz:
+        p = (exp.get("params") or {}).get(n)
+        if p is not None:
+            p["default"] = 0.0
+    if qsum and isinstance(exp.get("doc"), str):
+        exp["doc"] = exp["doc"][1:-1]
+    for n in qhelps:
+        p = (exp.get("params") or {}).get(n)
+        if p is not None and isinstance(p.get("doc"), str):
+            p["doc"] = p["doc"][1:-1]
+    return not preserved(exp, out)
+
+
+def _absorb(failures):
+    """failures reported under a NEW class keep it only when the failure is what the new classes that apply describe
+    (otherwise class None: a violation); f["_final"] = the jsonable description at the end of the chain, or None"""
+    idx = [k for k, f in enumerate(failures) if f["class"] in NEW_CLASSES]
+    infos = _new_class_info([(failures[k]["case"]["chain"], _from_case(failures[k]["case"]["ir"])) for k in idx])
+    hist = collections.Counter()
+    for k, (news, negz, qsum, qhelps) in zip(idx, infos):
+        f = failures[k]
+        fin = f.get("_final")
+        if not described_by_new_classes(_from_case(f["case"]["ir"]), _from_case(fin) if fin is not None else None,
+                                        negz, qsum, qhelps):
+            f["what"] += " [not what the recorded class%s %s describe%s]" % (
+                "es" if len(news) > 1 else "", ", ".join(news), "" if len(news) > 1 else "s")
+            hist["new-class-not-described:" + f["class"]] += 1
+            f["class"] = None
+    for f in failures:
+        f.pop("_final", None)
+    return hist
 
 
 def _classify(pairs):
@@ -584,7 +704,7 @@ def oracle(rng, tier):
     failures, hist, seen, disagree = [], collections.Counter(), set(), []
     evaluations = 0
     # ---- sequences: the conversion under test must not depend on what the process converted before
-    for (poison, ir, ks, tags), cls, (did, alone, after, ok, what, strict_ok) in zip(seqs, seq_classes, seq_results):
+    for (poison, ir, ks, tags), cls, (did, alone, after, ok, what, strict_ok, fin) in zip(seqs, seq_classes, seq_results):
         if cls == "out-of-domain":
             hist["sequence:out-of-domain"] += 1
             continue
@@ -603,7 +723,7 @@ def oracle(rng, tier):
                 did, what, "" if alone == after else " [run alone before it, the chain ended with " + alone[:200] + "]")
         hist["sequence:" + ("holds" if ok else "fails") + ":" + (cls or "in-region")] += 1
         if not ok:
-            failures.append({"case": case, "what": what, "class": cls})
+            failures.append({"case": case, "what": what, "class": cls, "_final": fin})
     closure_pairs, closure_idx, rel_reqs, rel_idx = [], [], [], []
     for n, ((ir, ks, tags), cls, (ok, what, mids, strict_ok)) in enumerate(zip(pts, classes, results)):
         if cls == "out-of-domain":
@@ -623,7 +743,7 @@ def oracle(rng, tier):
                 closure_pairs.append((ks, _from_case(mid)))
                 closure_idx.append((case, j))
         if not ok:
-            failures.append({"case": case, "what": what, "class": cls})
+            failures.append({"case": case, "what": what, "class": cls, "_final": mids[-1] if mids and len(mids) == len(ks) else None})
         if mids and len(mids) == len(ks):
             try:
                 rel_reqs.append(dumps([Sym("c05_preserved"), irwire.enc_ir(_od(ir)), irwire.enc_ir(_od(_from_case(mids[-1])))]))
@@ -640,6 +760,10 @@ def oracle(rng, tier):
     for (case, strict_ok), r in zip(rel_idx, run_model(rel_reqs)):
         if r not in ("true", "false") or (r == "true") != strict_ok:
             disagree.append({"case": case, "coq_preserved": r, "oracle_strict_preserved": strict_ok})
+    hist.update(_absorb(failures))
+    for (ir, ks, tags), cls in zip(pts, classes):
+        if "new-shape" in tags and cls != "out-of-domain":
+            hist["new-shapes:%s:%s" % (tags[-1], cls or "in-region")] += 1
     samples = [{"ir": _jsonable(pts[i][0]), "chain": pts[i][1]} for i in range(0, min(len(pts), 4000), 500)]
     return {
         "evaluations": evaluations,
@@ -652,7 +776,11 @@ def oracle(rng, tier):
                 "description inside its region is run alone, then another conversion is run in the same process (a once-damaged "
                 "numpydoc / Google / ReST docstring, or a chain on a description outside the region: most raise part-way), then the "
                 "chain again: the property must hold and the result must be the one obtained alone; non-trivial = distinct "
-                "(description, chain[, what ran before]) inside the region chain_safe",
+                "(description, chain[, what ran before]) inside the region chain_safe_r; classification by the refined classifier "
+                "C05Spec2.c05_class_of_r; a stratum of the shapes proofs found inside the first classifier's region (a float default "
+                "-0.0; a summary / prose wrapped in one to three pairs of single quote marks) on chains that mostly pass the class / "
+                "the argparse kind; a new class stands only for the difference it describes (strict `preserved` against the input "
+                "with 0.0 / with one pair of quote marks removed)",
         "failures": failures,
         "model_impl_property_disagreements": disagree,
         "histogram": dict(hist),
